@@ -367,6 +367,10 @@ def putFC (k : Str) (v : FC) : FCs → FCs
 structure Store where
   fcs : FCs
   spec : List Schema
+  /-- `rateLimiter.clientCache`: the instances with a heartbeat on record -/
+  clients : List Str := []
+  /-- the instances (`Spec.Instance`) of the rate-limit conditions kept in the store -/
+  conds : List Str := []
 deriving Repr, Inhabited
 
 def Store.empty : Store := { fcs := [], spec := [] }
@@ -410,7 +414,7 @@ def sync (st : Store) (spec : List Schema) : Store :=
   else
     let fcs := spec.foldl syncOne st.fcs
     let deleted := (st.spec.map (·.name)).filter fun n => !(newNames spec).contains n
-    { fcs := deleted.foldl (fun f n => eraseFC n f) fcs, spec := spec }
+    { st with fcs := deleted.foldl (fun f n => eraseFC n f) fcs, spec := spec }
 
 /-- `localStore.DeleteInstanceState(instance)`: `fc.SetState(instance, -1, -1)` on every flow control -/
 def deleteInstanceState (st : Store) (inst : Str) : Store :=
@@ -418,6 +422,32 @@ def deleteInstanceState (st : Store) (inst : Str) : Store :=
       match fc with
       | .mif g => (n, .mif (setState g inst (-1) (-1)).1)
       | .tb b => (n, .tb b) }
+
+/-! ### the server's own removal paths: heartbeat time-out sweep and clean-up of conditions of unknown clients -/
+
+/-- `rateLimiter.Heartbeat(instance)` -/
+def heartbeat (st : Store) (inst : Str) : Store :=
+  if st.clients.contains inst then st else { st with clients := st.clients ++ [inst] }
+
+/-- a condition of `inst` is saved in the store -/
+def saveCondition (st : Store) (inst : Str) : Store :=
+  if st.conds.contains inst then st else { st with conds := st.conds ++ [inst] }
+
+/-- `rateLimiter.cleanupTimeoutClient` when exactly the clients in `stale` are past `ClientHeartBeatTimeout`: each of
+    them that is on record is dropped from the cache, its conditions are deleted and `DeleteInstanceState` removes its
+    state from every flow control — the state of THAT instance, by its exact identity. -/
+def sweepTimeout (st : Store) (stale : List Str) : Store :=
+  let gone := st.clients.filter fun c => stale.contains c
+  let st1 := gone.foldl deleteInstanceState st
+  { st1 with clients := st.clients.filter (fun c => !stale.contains c),
+             conds := st.conds.filter (fun c => !gone.contains c) }
+
+/-- `rateLimiter.cleanupUnknownCondition` (every upstream known): the conditions of instances without a heartbeat on
+    record are deleted (not those with an empty instance) and the state of these instances is removed -/
+def cleanupUnknown (st : Store) : Store :=
+  let gone := st.conds.filter fun c => !st.clients.contains c && !c.isEmpty
+  let st1 := gone.foldl deleteInstanceState st
+  { st1 with conds := st.conds.filter (fun c => !gone.contains c) }
 
 inductive AcqErr where
   | none
